@@ -205,9 +205,10 @@ def Selection.fields (s : Selection) (cell : Option Text) : List (Text × Option
 def Selection.write (s : Selection) : Option Node :=
   (optCoordText? s.activeCell).map fun cell => elem "selection" (render (s.fields cell)) []
 
-/-- `SequenceOfReferences::set_sqref` on an empty collection: split at blanks, `Range::set_range` each -/
+/-- `SequenceOfReferences::set_sqref` on an empty collection: split at blanks, the empty pieces left out
+    (fix 13062503), `Range::set_range` each -/
 def sqrefRead (t : Text) : Option (List Range) :=
-  (splitCh ' ' t).mapM fun piece =>
+  ((splitCh ' ' t).filter fun p => !p.isEmpty).mapM fun piece =>
     match Range.parse piece with
     | .ok ρ => some ρ
     | .panic => none
